@@ -108,6 +108,14 @@ def run_for(run, root):
         if ov:
             jobs.append((run.prop, root, ov))
             meta.append(('twin', M('alpha-rename-locals(%s)' % ','.join(os.path.basename(f) for f in files), None, None, None)))
+        from .alpha import add_tracing
+        ov2 = {}
+        for f in files:
+            with open(os.path.join(root, f), 'rb') as fh:
+                ov2[f] = add_tracing(fh.read().decode('utf-8'))
+        if ov2:
+            jobs.append((run.prop, root, ov2))
+            meta.append(('twin', M('trace-logging-inserted(%s)' % ','.join(os.path.basename(f) for f in files), None, None, None)))
     except SyntaxError:
         pass
     for (kind, m), r in zip(meta, _analyse_many(jobs)):
